@@ -334,29 +334,34 @@ def simulate_archive(members, dest, existing_files=(), existing_dirs=(), existin
             lt = link if link.startswith('/') else posixpath.join(dest, link)
             src_nf = v.resolve(lt, False, [])
             src_f = v.resolve(lt, True, [])
+            want = _norm(link)
+            earlier = [k for k in range(index) if _norm(members[k]['name']) == want]
+
+            def fallback():
+                # a tar extractor that cannot make the link extracts the (last) earlier member of that name under
+                # the new name instead, then applies the attributes of the link member through the new name
+                e = members[earlier[-1]]
+                apply(earlier[-1], name, e['kind'], e['link'], depth + 1)
+                reach.touch(v.resolve(full, True, []), False)
+
             if src_f is None or v.nodes.get(src_f) is None:
-                # the linked name does not exist: a tar extractor falls back to extracting the earlier member of
-                # that name under the new name
-                want = _norm(link)
-                earlier = [m for m in members[:index] if _norm(m['name']) == want]
                 if earlier and depth < 4:
-                    e = earlier[-1]
-                    apply(members.index(e), name, e['kind'], e['link'], depth + 1)
+                    fallback()
                 else:
                     flags['dangling_hardlink'] = True
                 return
             sn = v.nodes.get(src_nf)
-            if node_nf is not None and node_nf[0] == 'd':
-                return
-            if sn is not None and sn[0] == 'l':
+            if node_nf is None and sn is not None and sn[0] == 'l':
                 # a hard link to a symbolic link is another name for that link (same target text, interpreted
                 # from the new place): attributes go through it
                 v.nodes[phys_nf] = ('l', sn[1])
                 reach.touch(src_f, False)
                 reach.touch(v.resolve(phys_nf, True, []), False)
-            elif sn is not None and sn[0] == 'f':
+            elif node_nf is None and sn is not None and sn[0] == 'f':
                 v.nodes[phys_nf] = ('f', sn[1])
                 reach.touch(sn[1], False)             # attributes of the shared inode are set
+            elif earlier and depth < 4:
+                fallback()                            # link() failed (name exists / source is a directory)
 
     for i, m in enumerate(members):
         apply(i, m['name'], m['kind'], m['link'])
